@@ -175,8 +175,8 @@ def unify : Ty → Ty → Subst → Option Subst
         | some σ' => unify lr rr σ'
         | none => none
     | _ => none
-  | .vec _, _, _ => none
-  | .dyn _, _, _ => none
+  | .vec le, a, σ => match a with | .vec re => unify le re σ | _ => none
+  | .dyn ln, a, σ => match a with | .dyn rn => if ln == rn then some σ else none | _ => none
   | .tvar _, _, _ => none
 /-- the `for (a, b) in l.iter().zip(r.iter())` loops (stop at the shorter list) -/
 def unifyList : List Ty → List Ty → Subst → Option Subst
@@ -342,6 +342,33 @@ def substParams (σ : Subst) : List (String × Ty) → List (String × Ty)
   | [] => []
   | (x, t) :: rest => (x, substTy σ t) :: substParams σ rest
 
+/-- `specialize_fn_value`: a generic function used as a value is specialised at the function type of
+the use site; `none` = the name stays as it is -/
+def specializeValue (F : List Fn) (x : String) (ty : Ty) (c : Ctx) : Option (String × Ctx) :=
+  match findFn F x with
+  | none => none
+  | some callee =>
+    if !fnIsGeneric callee then none
+    else
+      match ty with
+      | .func params ret =>
+        if params.length != callee.params.length then none
+        else
+          match unifyList (callee.params.map (·.2)) params [] with
+          | none => none
+          | some s1 =>
+            match unify callee.ret ret s1 with
+            | none => none
+            | some cs => if cs.any (fun p => hasTParam p.2) then none else some (ensureInstance c callee.name cs)
+      | _ => none
+
+/-- the `EVar` case -/
+def monoVar (F : List Fn) (σ : Subst) (x : String) (ty : Ty) (c : Ctx) : Expr × Ctx :=
+  let nty := substTy σ ty
+  match specializeValue F x nty c with
+  | some r => (.var r.1 nty, r.2)
+  | none => (.var x nty, c)
+
 /-- the tail of the `ECall` case once callee and arguments are transformed -/
 def resolveCall (F : List Fn) (nty : Ty) (f' : Expr) (args' : List Expr) (c : Ctx) : Expr × Ctx :=
   match f' with
@@ -366,7 +393,7 @@ def resolveCall (F : List Fn) (nty : Ty) (f' : Expr) (args' : List Expr) (c : Ct
 mutual
 /-- `mono_expr` -/
 def monoExpr (F : List Fn) (σ : Subst) : Expr → Ctx → Expr × Ctx
-  | .var x ty, c => (.var x (substTy σ ty), c)
+  | .var x ty, c => monoVar F σ x ty c
   | .prim p, c => (.prim p, c)
   | .tag i ty, c => (.tag i (substTy σ ty), c)
   | .constr k ty args, c =>
@@ -419,6 +446,10 @@ def monoExpr (F : List Fn) (σ : Subst) : Expr → Ctx → Expr × Ctx
     let r1 := monoExpr F σ l c
     let r2 := monoExpr F σ r r1.2
     (.bin op (substTy σ ty) r1.1 r2.1, r2.2)
+  | .call ty (.var x fty) args, c =>
+    -- a callee named directly is specialised by `resolveCall`, once the argument types are known
+    let r2 := monoList F σ args c
+    resolveCall F (substTy σ ty) (.var x (substTy σ fty)) r2.1 r2.2
   | .call ty f args, c =>
     let r1 := monoExpr F σ f c
     let r2 := monoList F σ args r1.2
@@ -560,6 +591,9 @@ def collapse : Nat → Ty → TM → Ty × TM
     | .ref e =>
       let r := collapse fuel e m
       (.ref r.1, r.2)
+    | .vec e =>
+      let r := collapse fuel e m
+      (.vec r.1, r.2)
     | t => (t, m)
 def collapseList : Nat → List Ty → TM → List Ty × TM
   | 0, ts, m => (ts, m.fail "fuel")
